@@ -730,10 +730,18 @@ def campaign(ctx):
     base = common.scratch_dir("c20")
     try:
         rng = ctx.rng
+        import time as _t
+        t_last = [_t.time()]
+        phases = ctx.extra.setdefault("phase_s", {})
+
+        def lap(name):
+            phases[name] = round(phases.get(name, 0) + _t.time() - t_last[0], 1)
+            t_last[0] = _t.time()
         # 0 corpus first: stored witnesses (known findings, minimised past failures)
         for f in sorted((common.VERIF / "corpus" / "C20").glob("*.json")):
             replay_one(ctx, json.loads(f.read_text())["input"])
             ctx.dist["corpus"] += 1
+        lap("corpus")
         model_rows: list = []
         # 1a exhaustive small scope (+ corpus witnesses of F5)
         names = list(small_names(3)) + ["a/b", "a b", "a/../b", "b", "a\n", "a.b"]
@@ -741,29 +749,35 @@ def campaign(ctx):
         proj = new_project(base, "names_small")
         check_names(ctx, proj, names, ["e", "é/..\n"], [rng.randrange(1, 1 << 16), rng.randrange(1, 1 << 16)], "small", model_rows)
         ctx.exhaustive = True
+        lap("names_small")
         # 1b random unicode / long / separators / case-only differences, more entry names, 3 sessions
         rnames = list(dict.fromkeys(random_names(rng, ctx.scale(150, 1500))))
         proj2 = new_project(base, "names_random")
         check_names(ctx, proj2, rnames, list(dict.fromkeys(random_entry_names(rng, ctx.scale(8, 30)))),
                     [rng.randrange(1, 1 << 16) for _ in range(3)], "random", model_rows)
+        lap("names_random")
         # 1c entry names that differ only by unicode normalisation / case / white space / separator spelling
         proj3 = new_project(base, "names_confusable")
         check_names(ctx, proj3, ["c", "C", "c-" + str(rng.randrange(100))], list(dict.fromkeys(sum(CONFUSABLE_ENTRIES, []))),
                     [rng.randrange(1, 1 << 16) for _ in range(2)], "confusable", model_rows)
+        lap("names_confusable")
         compare_names_with_model(ctx, model_rows)
+        lap("names_model")
         # 2 save/load traces over sessions
-        nt = ctx.scale(60, 600)
+        nt = ctx.scale(48, 600)
         traces = [random_trace(rng, i, with_f5=(i % 6 == 5)) for i in range(nt)]
         projs, results = run_traces(ctx, base, traces, [rng.randrange(1, 1 << 16) for _ in range(4)])
         for t in traces:
             check_trace(ctx, t, projs[t["id"]], results[t["id"]])
+        lap("traces")
         # 3 end to end
-        ne = ctx.scale(10, 60)
+        ne = ctx.scale(8, 60)    # quick: one wave of 8 parallel projects
         cases = [random_e2e(rng, i, f5=(i == ne - 1)) for i in range(ne)]
         with ThreadPoolExecutor(max_workers=8) as ex:
             outs = list(ex.map(lambda c: run_e2e(ctx, base, c), cases))
         for c, (proj, builds, logs) in zip(cases, outs):
             check_e2e(ctx, c, builds, logs)
+        lap("e2e")
     finally:
         shutil.rmtree(base, ignore_errors=True)
 
